@@ -128,12 +128,15 @@ FetchRule(i) ==
   ELSE PolicyOf(i.body)
 
 (******************************* property **********************************)
-\* out of a match row: "yes", "no" or "panic"; of a fetch row: [kind, mode, age, mx] or kind = "panic"
+\* out of a match row (mtastsDelivery.CheckMX with the policy in enforce mode): "yes" (level mtasts), "no" (refused),
+\* "panic", or a description of anything else; of a fetch row: [kind, mode, age, mx] or kind = "panic"
 YesNo(b) == IF b THEN "yes" ELSE "no"
 ViolMatch(i, out) ==
   (IF out = "panic" THEN {"MatchCrashed"} ELSE {})
   \cup (IF out = "yes" /\ ~ShouldMatch(i) THEN {"MatchedForeignMx"} ELSE {})
   \cup (IF out = "no" /\ ShouldMatch(i) THEN {"PolicyMxNotMatched"} ELSE {})
+  \* the delivery answered neither "level mtasts" nor "refused" for a policy in enforce mode
+  \cup (IF out \notin {"yes", "no", "panic"} THEN {"EnforceIncoherent"} ELSE {})
 
 ViolFetch(i, out) ==
   LET tc == IF i.dns # "ok" THEN "invalid" ELSE TxtClass(i.txt)
